@@ -1,3 +1,4 @@
+-- ENGINE: escape => PCV.Engines.escape
 import PCV.Engine
 import PCV.Util.Wire
 import PCV.Model.Escape
